@@ -2,7 +2,8 @@
 C04 line-protocol driver.
   loop <newton|bregman> <gen|asFound> <numIter> <n> ev..
       ev ∈ ok0[:<branch>] | ok1[:<branch>] | nan | f:<branch>:<label>   (fault at the first statement of that body carrying the label)
-      → `<converged 0/1 | error class> <iter|none> <distTag|none> <solTag> <stopped>`
+      (a trailing token `post`: the solve after the loop fails)
+      → `<converged 0/1 | error class> <iter|none> <distTag|none> <solTag> <stopped> <pressure: iterate | nan | raise>`
   points <newton|bregman>  → the generated bodies, `branch: label/effect ...`
 -/
 import DarsiaModel.Basic
@@ -26,7 +27,7 @@ def showLabel : Label → String
   | .setSolution => "setSolution" | .setDistance => "setDistance" | .other => "other"
 
 def showEffect : Effect → String
-  | .none => "-" | .writeSol => "sol" | .writeDist => "dist" | .criteria => "crit"
+  | .none => "-" | .writeSol => "sol" | .writeDist => "dist" | .criteria => "crit" | .commitDist => "commit"
 
 def parseEvent (c : LoopCode) (t : String) : Option Event :=
   match t with
@@ -53,6 +54,9 @@ def handleLoop : List String → Option String
       | "asFound" => some (match m with | .newton => asFoundNewton | .bregman => asFoundBregman)
       | _ => none)
     let ((n, evs), _) ← (do let n ← P.nat; let es ← P.list P.tok; P.done; pure (n, es) : P _).run rest
+    -- a trailing `post` token: the solve after the loop fails
+    let postFails := evs.getLast? == some "post"
+    let evs := if postFails then evs.dropLast else evs
     let evs ← evs.mapM (parseEvent code)
     let env := envOf evs
     let r := run code n env
@@ -60,7 +64,10 @@ def handleLoop : List String → Option String
       | .ok b => showBool b
       | .error e => e.show
     let showO : Option Nat → String := fun o => match o with | none => "none" | some v => toString v
-    pure s!"{c} {showO r.iter} {showO r.distTag} {r.solTag} {showBool r.stopped}"
+    let pr := match finish code r postFails with
+      | .error _ => "raise"
+      | .ok f => match f.pressure with | none => "nan" | some v => toString v
+    pure s!"{c} {showO r.iter} {showO r.distTag} {r.solTag} {showBool r.stopped} {pr}"
   | _ => none
 
 def handlePoints : List String → Option String
@@ -102,7 +109,8 @@ def handleAnderson (rest : List String) : Option String := do
     pure (depth, r, dim, calls) : P _).run rest
   let toV : List Rat → Anderson.V := fun l i => l.getD i 0
   let (_, outs) := ((List.range calls.length).zip calls).foldl (fun (acc : Anderson.St × List String) (k, (g, f, gm)) =>
-    let (x, st') := Anderson.call depth restart (fun _ _ => gm) acc.1 (toV g) (toV f) k
+    -- the stubbed least-squares routine returns as many of the given weights as it is handed (active) columns
+    let (x, st') := Anderson.callFiltered dim depth restart (fun F _ => gm.take F.length) acc.1 (toV g) (toV f) k
     (st', acc.2 ++ [showRats ((List.range dim).map x)])) (Anderson.reset depth, [])
   pure (" | ".intercalate outs)
 
